@@ -68,12 +68,8 @@ func c23(c *core.Ctx) {
 				r.Check(ok, mig.Key+":write->delete", d.Pos(), "legacy files deleted only after the new file was written successfully", "legacy files can be deleted although writing the new file failed ("+why+")")
 				// not reachable from verify's failure edges
 				edges, okE := fl.FailEdgesOfCall(mig.Decl.Body, verify)
-				bad := !okE
-				for e := range edges {
-					if fl.ReachFromEdge(e, nil, core.ContainsNode(d)) {
-						bad = true
-					}
-				}
+				bad, _ := fl.RunsWithoutSuccess(mig.Decl.Body, verify, d)
+				bad = bad || !okE
 				r.Check(!bad, mig.Key+":verify->delete", d.Pos(), "not reachable when verification failed", "legacy files can be deleted although verification of the new file failed")
 				// verify failure removes the new file
 				removed := okE
